@@ -66,6 +66,12 @@ def mixed_tree(r, variant):
                 {"p": "lnk", "k": "l", "target": "single"}]
         pre = [{"p": "dst", "k": "d"}, {"p": "dst/s1", "k": "d"}, F("dst/s1/ff", 3, 53), {"p": "dst/s1/sk", "k": "fifo"}, F("dst/single", 5, 54)]
         args = ["-w", "2", "--block-size", "64KB", "-r", "--target-directory", "dst", "s1", "single", "lnk"]
+    elif variant == 8:
+        # sources selected by --glob: directories are listed by main before any copy starts
+        spec = [{"p": "src", "k": "d"}] + [e for d in ("a", "b", "c") for e in ({"p": "src/" + d, "k": "d"}, F("src/%s/one-%s.txt" % (d, d), 100, 60 + ord(d)),
+                                                                                 F("src/%s/two-%s.txt" % (d, d), 70000, 70 + ord(d)))]
+        pre = [{"p": "dst", "k": "d"}]
+        args = ["-w", "2", "--block-size", "64KB", "--glob", "src/*/*.txt", "dst"]
     elif variant >= 3:
         spec = [{"p": "src", "k": "d"}] + tree.gen_tree(r, depth=3, fanout=3, kinds=("f", "f", "d", "l"), prefix="src",
                                                         nonutf8=False, max_entries=12, xattrs=True, modes=True, mtimes=True,
@@ -80,7 +86,7 @@ def mixed_tree(r, variant):
 
 def gen_cases(tier, seed):
     r = random.Random(seed * 15485863 + 4)
-    variants = [0, 1, 2, 3, 5, 6, 7] if tier == "quick" else [0, 1, 2] + list(range(3, 14))
+    variants = [0, 1, 2, 3, 5, 6, 7, 8] if tier == "quick" else [0, 1, 2] + list(range(3, 14))
     for v in variants:
         spec, pre, args = mixed_tree(r, v)
         for driver in ("parfile", "parblock"):
@@ -133,6 +139,8 @@ def judge(case, root, pre, post, run, res, prop_tag=""):
     v = case.get("variant")
     if v == 7:
         mapping, _ = model.map_sources(pre, root, ["s1", "single", "lnk"], "dst")
+    elif v == 8:
+        mapping, _ = model.map_sources(pre, root, sorted(p_ for p_ in pre if p_.endswith(".txt") and p_.startswith("src/")), "dst")
     else:
         src = [a for a in case["args"] if a in ("src", "f")][0]
         dst = case["args"][-1]
